@@ -28,8 +28,11 @@ import traceback
 
 VERIF = os.path.dirname(os.path.dirname(os.path.abspath(__file__)))
 REPO = os.environ.get('VERIF_REPO', '/repo')
-EVIDENCE_DIR = os.path.join(VERIF, 'evidence')
-REPLAY_DIR = os.path.join(VERIF, 'replays')
+# evidence/ and replays/ describe /repo itself: a run against another tree ($VERIF_REPO: a scratch worktree carrying a seeded change)
+# writes its evidence and replay files next to that tree instead, so that it can neither overwrite nor be mistaken for the real ones
+_OUT = VERIF if REPO == '/repo' else os.path.join(REPO, '.verif_out')
+EVIDENCE_DIR = os.path.join(_OUT, 'evidence')
+REPLAY_DIR = os.path.join(_OUT, 'replays')
 FINDINGS_FILE = os.path.join(VERIF, 'KNOWN_FINDINGS.txt')
 LEVEL = 'model_checking'
 
